@@ -10,10 +10,16 @@ theorem deliver_eof {α : Type} (xs : List α) (k : Nat) (pre : Bool) :
     deliver (xs, Stop.eof) k pre = if xs.isEmpty then ([], .err .noammo) else (cycleTake xs k, .eof) := by
   simp [deliver]
 
-theorem fits_of_linesFit {file : Bytes} (h : linesFit file = true) : fits file := by
+theorem fits_of_linesFitL {lim : Option Nat} {file : Bytes} (h : linesFitL lim file = true) : fits lim file := by
   intro l hl
-  simp only [linesFit, List.all_eq_true, decide_eq_true_eq] at h
+  simp only [linesFitL, List.all_eq_true, Bool.not_eq_true'] at h
   exact h l hl
+
+theorem fits_of_linesFit {file : Bytes} (h : linesFit file = true) : fits (some maxTok) file :=
+  fits_of_linesFitL h
+
+/-- without a token limit every file fits -/
+theorem fits_none (file : Bytes) : fits none file := fun _ _ => rfl
 
 theorem layoutOK_parts {lay : Layout} (h : layoutOK lay = true) :
     lay.lead.all padOK = true ∧ lay.per.all itemLayOK = true ∧ padOK lay.trail = true := by
